@@ -60,6 +60,37 @@ class Top(Elaboratable):
         return m
 
 
+class VAdapter(Elaboratable):
+    """Like transactron.lib.Adapter, but the method it defines has a real (hardware) validate_arguments
+    predicate: the first field of the argument must differ from K.  A stub of the harness."""
+
+    def __init__(self, method, k):
+        from transactron import Method
+
+        self.iface = Method(i=method.layout_in, o=method.layout_out)
+        method.provide(self.iface)
+        self.k = k
+        self.en = Signal()
+        self.done = Signal()
+        self.data_in = Signal(method.layout_out)   # what the method returns
+        self.data_out = Signal(method.layout_in)   # the argument it was called with
+        self.first = next(iter(method.layout_in.members))
+
+    def elaborate(self, platform):
+        from transactron import TModule, def_method
+
+        m = TModule()
+        first, k = self.first, self.k
+
+        @def_method(m, self.iface, ready=self.en, validate_arguments=lambda arg: arg[first] != k)
+        def _(arg):
+            m.d.top_comb += self.data_out.eq(arg)
+            m.d.comb += self.done.eq(1)
+            return self.data_in
+
+        return m
+
+
 class CompScenario(Scenario):
     def __init__(self, cfg):
         super().__init__(cfg)
@@ -152,6 +183,18 @@ class CompScenario(Scenario):
         else:
             ad = Adapter(name=name, i=i, o=o, **kwargs)
         self.top.add(f"ad_{name}", ad)
+        self.add_input(f"{name}.en", ad.en)
+        for path, sig in leaves(ad.data_in):
+            self.add_input(f"{name}.ret.{path}", sig)
+        self.add_obs(f"{name}.done", ad.done)
+        for path, sig in leaves(ad.data_out):
+            self.add_obs(f"{name}.arg.{path}", sig)
+        return ad
+
+    def vcallee(self, name, method, k):
+        """A required method provided by a stub whose validate_arguments rejects first-field == k."""
+        ad = VAdapter(method, k)
+        self.top.add(f"vad_{name}", ad)
         self.add_input(f"{name}.en", ad.en)
         for path, sig in leaves(ad.data_in):
             self.add_input(f"{name}.ret.{path}", sig)
